@@ -514,38 +514,85 @@ func sortedKeys[V any](m map[string]V) []string {
 	return ks
 }
 
-func diffProtoMap[V googleproto.Message](what string, a, b map[string]V, out *[]string) {
+// DiffEntry is one difference between two folded states.
+type DiffEntry struct {
+	Class  string   // "ipset", "policy", "profile", "wep", "hep", "route", "vtep", "hostmetadata", ...
+	ID     string   // key of the object inside its class
+	Kind   string   // "only-in-a", "only-in-b" or "differs"
+	Fields []string // for "differs": names of the top-level fields that differ (sorted)
+	Text   string   // human-readable rendering
+}
+
+// Key is a stable identity of the kind of difference: class, kind and the differing field names.
+func (d DiffEntry) Key() string {
+	k := d.Class + ":" + d.Kind
+	if len(d.Fields) > 0 {
+		k += ":" + strings.Join(d.Fields, ",")
+	}
+	return k
+}
+
+func (d DiffEntry) String() string { return d.Text }
+
+func differingFields(a, b googleproto.Message) []string {
+	var out []string
+	ra, rb := a.ProtoReflect(), b.ProtoReflect()
+	fds := ra.Descriptor().Fields()
+	for i := 0; i < fds.Len(); i++ {
+		fd := fds.Get(i)
+		if ra.Has(fd) != rb.Has(fd) || !ra.Get(fd).Equal(rb.Get(fd)) {
+			out = append(out, string(fd.Name()))
+		}
+	}
+	sort.Strings(out)
+	return out
+}
+
+func diffProtoMap[V googleproto.Message](class string, a, b map[string]V, out *[]DiffEntry) {
 	for _, k := range sortedKeys(a) {
 		bv, ok := b[k]
 		if !ok {
-			*out = append(*out, fmt.Sprintf("%s %q: only in A: %v", what, k, a[k]))
+			*out = append(*out, DiffEntry{Class: class, ID: k, Kind: "only-in-a", Text: fmt.Sprintf("%s %q: only in A: %v", class, k, a[k])})
 			continue
 		}
 		if !googleproto.Equal(a[k], bv) {
-			*out = append(*out, fmt.Sprintf("%s %q differs:\n   A: %v\n   B: %v", what, k, a[k], bv))
+			*out = append(*out, DiffEntry{Class: class, ID: k, Kind: "differs", Fields: differingFields(a[k], bv),
+				Text: fmt.Sprintf("%s %q differs:\n   A: %v\n   B: %v", class, k, a[k], bv)})
 		}
 	}
 	for _, k := range sortedKeys(b) {
 		if _, ok := a[k]; !ok {
-			*out = append(*out, fmt.Sprintf("%s %q: only in B: %v", what, k, b[k]))
+			*out = append(*out, DiffEntry{Class: class, ID: k, Kind: "only-in-b", Text: fmt.Sprintf("%s %q: only in B: %v", class, k, b[k])})
 		}
 	}
 }
 
-// Diff compares two folded states field by field and returns one line per difference (empty =
-// equal).  Policies, profiles and endpoints are compared with proto.Equal (rule ids included), IP
-// sets by type and member set, everything else by proto.Equal per key.  InSync is not compared.
-func Diff(a, b *State) []string {
-	var out []string
+func diffSingle(class string, a, b googleproto.Message, aNil, bNil bool, out *[]DiffEntry) {
+	switch {
+	case aNil && bNil:
+	case aNil:
+		*out = append(*out, DiffEntry{Class: class, Kind: "only-in-b", Text: fmt.Sprintf("%s: only in B: %v", class, b)})
+	case bNil:
+		*out = append(*out, DiffEntry{Class: class, Kind: "only-in-a", Text: fmt.Sprintf("%s: only in A: %v", class, a)})
+	case !googleproto.Equal(a, b):
+		*out = append(*out, DiffEntry{Class: class, Kind: "differs", Fields: differingFields(a, b), Text: fmt.Sprintf("%s: A=%v B=%v", class, a, b)})
+	}
+}
+
+// DiffEntries compares two folded states field by field (empty = equal).  Policies, profiles and
+// endpoints are compared with proto.Equal (rule ids included), IP sets by type and member set,
+// everything else by proto.Equal per key.  InSync is not compared.
+func DiffEntries(a, b *State) []DiffEntry {
+	var out []DiffEntry
 	for _, k := range sortedKeys(a.IPSets) {
 		bs, ok := b.IPSets[k]
 		as := a.IPSets[k]
 		if !ok {
-			out = append(out, fmt.Sprintf("ipset %q: only in A (members %v)", k, sortedKeys(as.Members)))
+			out = append(out, DiffEntry{Class: "ipset", ID: k, Kind: "only-in-a", Text: fmt.Sprintf("ipset %q: only in A (members %v)", k, sortedKeys(as.Members))})
 			continue
 		}
 		if as.Type != bs.Type {
-			out = append(out, fmt.Sprintf("ipset %q: type A=%v B=%v", k, as.Type, bs.Type))
+			out = append(out, DiffEntry{Class: "ipset", ID: k, Kind: "differs", Fields: []string{"type"}, Text: fmt.Sprintf("ipset %q: type A=%v B=%v", k, as.Type, bs.Type)})
 		}
 		var onlyA, onlyB []string
 		for m := range as.Members {
@@ -561,32 +608,38 @@ func Diff(a, b *State) []string {
 		if len(onlyA)+len(onlyB) > 0 {
 			sort.Strings(onlyA)
 			sort.Strings(onlyB)
-			out = append(out, fmt.Sprintf("ipset %q: members only in A %v, only in B %v", k, onlyA, onlyB))
+			out = append(out, DiffEntry{Class: "ipset", ID: k, Kind: "differs", Fields: []string{"members"},
+				Text: fmt.Sprintf("ipset %q: members only in A %v, only in B %v", k, onlyA, onlyB)})
 		}
 	}
 	for _, k := range sortedKeys(b.IPSets) {
 		if _, ok := a.IPSets[k]; !ok {
-			out = append(out, fmt.Sprintf("ipset %q: only in B (members %v)", k, sortedKeys(b.IPSets[k].Members)))
+			out = append(out, DiffEntry{Class: "ipset", ID: k, Kind: "only-in-b", Text: fmt.Sprintf("ipset %q: only in B (members %v)", k, sortedKeys(b.IPSets[k].Members))})
 		}
 	}
 	diffProtoMap("policy", a.Policies, b.Policies, &out)
 	diffProtoMap("profile", a.Profiles, b.Profiles, &out)
-	diffProtoMap("workload endpoint", a.WEPs, b.WEPs, &out)
-	diffProtoMap("host endpoint", a.HEPs, b.HEPs, &out)
+	diffProtoMap("wep", a.WEPs, b.WEPs, &out)
+	diffProtoMap("hep", a.HEPs, b.HEPs, &out)
 	diffProtoMap("route", a.Routes, b.Routes, &out)
 	diffProtoMap("vtep", a.VTEPs, b.VTEPs, &out)
-	diffProtoMap("host metadata", a.HostMetadata, b.HostMetadata, &out)
-	diffProtoMap("ip pool", a.Pools, b.Pools, &out)
-	diffProtoMap("service account", a.ServiceAccounts, b.ServiceAccounts, &out)
+	diffProtoMap("hostmetadata", a.HostMetadata, b.HostMetadata, &out)
+	diffProtoMap("ippool", a.Pools, b.Pools, &out)
+	diffProtoMap("serviceaccount", a.ServiceAccounts, b.ServiceAccounts, &out)
 	diffProtoMap("namespace", a.Namespaces, b.Namespaces, &out)
 	diffProtoMap("wireguard", a.Wireguard, b.Wireguard, &out)
-	diffProtoMap("wireguard v6", a.WireguardV6, b.WireguardV6, &out)
+	diffProtoMap("wireguardv6", a.WireguardV6, b.WireguardV6, &out)
 	diffProtoMap("service", a.Services, b.Services, &out)
-	if !googleproto.Equal(a.Encap, b.Encap) {
-		out = append(out, fmt.Sprintf("encapsulation: A=%v B=%v", a.Encap, b.Encap))
-	}
-	if !googleproto.Equal(a.GlobalBGP, b.GlobalBGP) {
-		out = append(out, fmt.Sprintf("global BGP config: A=%v B=%v", a.GlobalBGP, b.GlobalBGP))
+	diffSingle("encapsulation", a.Encap, b.Encap, a.Encap == nil, b.Encap == nil, &out)
+	diffSingle("globalbgp", a.GlobalBGP, b.GlobalBGP, a.GlobalBGP == nil, b.GlobalBGP == nil, &out)
+	return out
+}
+
+// Diff is DiffEntries rendered as text, one line per difference.
+func Diff(a, b *State) []string {
+	var out []string
+	for _, d := range DiffEntries(a, b) {
+		out = append(out, d.Text)
 	}
 	return out
 }
